@@ -1092,7 +1092,8 @@ def validate_traces(ctx, traces, metas, tag="Trace"):
             x = m["raw"][node][i][j]
             n, d = v["want"]
             if d != 0 and abs(x - n / d) <= 1e-9 * max(1.0, abs(n / d)):
-                raise Machinery(f"Trace_C06: rationalisation artefact at trace {tid} node {node}: {x} vs {n}/{d}")
+                ctx.artefact(f"Trace_C06 trace {tid} node {node}: {x} vs {n}/{d}")
+                continue
             obs = {"node": node, "a": v["at"], "got": x}
         else:
             obs = {"node": node}
